@@ -2,6 +2,7 @@ import Tdms.Spec.Meaning
 import Tdms.Model.Data
 import Tdms.Model.Lazy
 import Tdms.Model.Timestamp
+import Tdms.Model.Path
 
 /-!
 # Line protocol of the model executable
@@ -315,6 +316,31 @@ def cmdTsDec (args : List String) : String :=
     | none => "null"
   | _ => "null"
 
+/-! ## object paths (C16); code points travel as decimal numbers separated by commas, `-` = empty -/
+
+def parseCodepoints (t : String) : Option (List Nat) :=
+  if t = "-" then some [] else (t.splitOn ",").mapM (·.toNat?)
+
+def showCodepoints (l : List Nat) : String := if l.isEmpty then "-" else ",".intercalate (l.map toString)
+
+/-- `pathenc name name …` : `_components_to_path` over an alphabet of code points (quote 39, slash 47) -/
+def cmdPathEnc (args : List String) : String :=
+  match args.mapM parseCodepoints with
+  | some comps => jStr (showCodepoints (Tdms.Model.Path.componentsToPath 39 47 comps))
+  | none => jStr "parse"
+
+/-- `pathdec path` : `_path_components` -/
+def cmdPathDec (args : List String) : String :=
+  match args with
+  | [t] =>
+    match parseCodepoints t with
+    | some p =>
+      match Tdms.Model.Path.pathComponents 39 47 p with
+      | .ok comps => jObj [("ok", "true"), ("comps", jArr (comps.map fun c => jStr (showCodepoints c)))]
+      | .error e => jObj [("ok", "false"), ("err", jStr (reprStr e))]
+    | none => jObj [("ok", "false"), ("err", jStr "parse")]
+  | _ => jObj [("ok", "false"), ("err", jStr "parse")]
+
 def dispatchBase (cmd : String) (args : List String) : Option String :=
   match cmd with
   | "enc" => some (cmdEnc args)
@@ -325,6 +351,8 @@ def dispatchBase (cmd : String) (args : List String) : Option String :=
   | "ops" => some (cmdOps args)
   | "tsenc" => some (cmdTsEnc args)
   | "tsdec" => some (cmdTsDec args)
+  | "pathenc" => some (cmdPathEnc args)
+  | "pathdec" => some (cmdPathDec args)
   | "ping" => some (jObj [("ok", "true")])
   | _ => none
 
